@@ -1,4 +1,4 @@
-\* thorough: 2 classes x <=3 records x counts 1..2 x endpoints {0,1}^2
+\* thorough: 2 classes x <=3 records x counts 1..2 x endpoints {00,10,01}
 SPECIFICATION Spec
 CONSTANTS
   UnitSeq <- U2
@@ -7,12 +7,14 @@ CONSTANTS
   MaxRecs = 3
   MaxCount = 2
   MCountMin = 1
-  EpVals <- EpBin
+  EpVals <- EpGrp
   ChainCanonical = FALSE
   TenantMode = "forall"
   ExportMode = "focus"
   SampleMod = 99991
   SampleRes = 0
-  NearMod = 97
+  NearMod = 29
+  SliceMod = 1
+  SliceRes = 0
 INVARIANTS ForAllManifests
 CHECK_DEADLOCK FALSE
